@@ -396,7 +396,7 @@ def _deploy_rules(ctx, R):
          'deploy() returns the wrapped application', P.app_var, func=f)
 
 
-def _path_literals(func):
+def _path_literals(func, prog=None):
     """String literals compared with PATH_INFO in a function."""
     lits = []
     bad = []
@@ -412,7 +412,19 @@ def _path_literals(func):
                         else:
                             bad.append(src(x))
                 else:
-                    bad.append(src(c))
+                    # a module-level constant collection of literals
+                    v = None
+                    d = prog.dotted(func.module, c, func) if prog else None
+                    if d and '.' in d:
+                        try:
+                            v = prog.const(*d.rsplit('.', 1))
+                        except model.AnalysisError:
+                            v = None
+                    if isinstance(v, (list, tuple, set, frozenset)) and all(
+                            isinstance(x, str) for x in v):
+                        lits.extend(v)
+                    else:
+                        bad.append(src(c))
         elif isinstance(n, ast.Call) and 'PATH_INFO' in src(n) and \
                 isinstance(n.func, ast.Attribute) and n.func.attr in (
                     'startswith', 'endswith', 'match', 'search'):
@@ -426,7 +438,7 @@ def _auth_rules(ctx, R):
               'placement.auth:PlacementKeystoneContext.__call__',
               'placement.auth:PlacementAuthProtocol.__call__'):
         f = prog.func(q)
-        lits, bad = _path_literals(f)
+        lits, bad = _path_literals(f, prog)
         R.ob('R16.4', 'exempt-paths:%s' % q.split(':')[1],
              set(lits) <= {'/', ''} and not bad,
              "the only PATH_INFO values exempt from authentication are '/' "
